@@ -526,6 +526,18 @@ func runC20(e *hk.Env) error {
 	} else if abs, err := filepath.Abs(os.Args[0]); err == nil {
 		os.Args[0] = abs
 	}
+	absArgv0, relArgv0, relGroups := os.Args[0], "", 0
+	if cwd, err := os.Getwd(); err == nil && filepath.IsAbs(absArgv0) {
+		if rel, err := filepath.Rel(cwd, absArgv0); err == nil && !filepath.IsAbs(rel) {
+			if !strings.Contains(rel, "/") {
+				rel = "./" + rel
+			}
+			if _, err := os.Stat(rel); err == nil {
+				relArgv0 = rel
+			}
+		}
+	}
+	defer func() { os.Args[0] = absArgv0; e.Stats["groups_with_relative_argv0"] = relGroups }()
 	base := filepath.Join(e.Out, "c20")
 	if v := os.Getenv("VERIF_DIR"); v != "" {
 		base = filepath.Join(v, ".build", fmt.Sprintf("c20-%d", os.Getpid()))
@@ -821,6 +833,14 @@ func runC20(e *hk.Env) error {
 				os.Setenv(envPause, fmt.Sprintf("%dms", sc.pause))
 			} else {
 				os.Unsetenv(envPause)
+			}
+			// how the program was invoked is not the library's business: every third group runs as a program started
+			// through a RELATIVE path (argv[0] = ../x/c20, resolved against the working directory the three processes share)
+			if relArgv0 != "" && groups%3 == 2 {
+				os.Args[0] = relArgv0
+				relGroups++
+			} else {
+				os.Args[0] = absArgv0
 			}
 			g.obs = make([]launchObs, sc.n)
 			limit := time.Duration(sc.delay+sc.pause)*time.Millisecond + lingerOf(sc.lv) + 3*time.Second
